@@ -125,13 +125,13 @@ def judge(acc, fmt, rounding, overflow, ds, part, mono, carrier='farr'):
             acc.violation('relation', dict(case, vals=[list(d)], mono=False),
                           'fmt=%s mode=%s/%s v=%d/2^%d (scaled %d/2^%d): code %d: %s'
                           % (fmt.dtype, rounding, overflow, d[0], d[1], num, s, c, err),
-                          {'part': part, 'rounding': rounding, 'overflow': overflow})
+                          {'part': part, 'rounding': rounding, 'overflow': overflow}, full=case)
             break
         acc.states.add((fmt, c))
     if not any_out and fl != (False, False, any_inexact):
         acc.violation('flags', dict(case, vals=case['vals'][:40]),
                       'fmt=%s mode=%s/%s in-range inputs: flags %s expected %s' % (fmt.dtype, rounding, overflow, fl, (False, False, any_inexact)),
-                      {'part': part})
+                      {'part': part}, full=case)
     if mono:
         for i in range(1, len(got)):
             acc.evaluations += 1
@@ -139,7 +139,7 @@ def judge(acc, fmt, rounding, overflow, ds, part, mono, carrier='farr'):
                 acc.violation('monotone', dict(case, vals=[list(ds[i - 1]), list(ds[i])]),
                               'fmt=%s mode=%s/%s v1=%d/2^%d <= v2=%d/2^%d but codes %d > %d'
                               % (fmt.dtype, rounding, overflow, ds[i - 1][0], ds[i - 1][1], ds[i][0], ds[i][1], got[i - 1], got[i]),
-                              {'part': part, 'rounding': rounding})
+                              {'part': part, 'rounding': rounding}, full=case)
                 break
         acc.outcome('mono_pairs', len(got) - 1)
     acc.dim('rounding', rounding, len(ds))
@@ -166,7 +166,7 @@ def idempotence(acc, fmt, cs, part, scalar):
             acc.violation('idempotence', dict(case, codes=[cs[bad[0]]] if bad else list(cs)[:40]),
                           'fmt=%s mode=%s/%s re-storing representable values: %s, flags %s'
                           % (fmt.dtype, r, o, 'code %d became %d' % (cs[bad[0]], got[bad[0]]) if bad else 'codes kept', fl),
-                          {'part': part, 'rounding': r})
+                          {'part': part, 'rounding': r}, full=case)
         acc.outcome('idem_array', len(cs))
         if scalar:
             for c in cs:
@@ -184,7 +184,7 @@ def idempotence(acc, fmt, cs, part, scalar):
                 if not (ok1 and ok2):
                     acc.violation('idempotence', dict(case, codes=[c], scalar=True),
                                   'fmt=%s mode=%s/%s x(x()) / x.set_val(x) on code %d gave %s flags %s'
-                                  % (fmt.dtype, r, o, c, codes(y), flags(y)), {'part': part, 'route': 'self'})
+                                  % (fmt.dtype, r, o, c, codes(y), flags(y)), {'part': part, 'route': 'self'}, full=case)
                 acc.outcome('idem_self')
 
 
